@@ -167,7 +167,38 @@ func (s *Solver) Ensure(terms []*Term) {
 }
 
 // Check decides satisfiability of the conjunction of lits.
+// Check decides the conjunction of lits.  An "unknown" answer (in practice a
+// query that hit its time limit, usually because the machine is overloaded) is
+// retried once on a fresh solver process with three times the time limit
+// before it is reported as unknown.
 func (s *Solver) Check(lits []*Term) SatResult {
+	r := s.check1(lits)
+	if r != Unknown || s.LastErr != "" || len(s.Cmd) == 0 {
+		return r
+	}
+	saved := append([]string(nil), s.Cmd...)
+	for i, a := range s.Cmd {
+		var ms int
+		if n, _ := fmt.Sscanf(a, "-t:%d", &ms); n == 1 {
+			s.Cmd[i] = fmt.Sprintf("-t:%d", 3*ms)
+		} else if n, _ := fmt.Sscanf(a, "--tlimit-per=%d", &ms); n == 1 {
+			s.Cmd[i] = fmt.Sprintf("--tlimit-per=%d", 3*ms)
+		}
+	}
+	s.restart()
+	s.UnknownN--
+	s.Queries--
+	r = s.check1(lits)
+	s.Cmd = saved
+	// keep the boosted process alive after a Sat answer: the caller may still
+	// ask for the model; the next restart goes back to the normal limit
+	if r != Sat {
+		s.restart()
+	}
+	return r
+}
+
+func (s *Solver) check1(lits []*Term) SatResult {
 	if len(lits) == 0 {
 		// the empty conjunction is satisfiable (and "(check-sat-assuming ( ))"
 		// is not accepted by every solver)
